@@ -96,7 +96,7 @@ def run(ctx):
     # ------------------------------------------------------------ round 1: histories
     hist = {}
     cases = []
-    nh = 24 if quick else 150
+    nh = 80 if quick else 300
     for h in range(nh):
         names = gen_names(rng, rng.randint(3, 9))
         sessions = [gen_session(rng, names, rng.randint(1, 6 if quick else 12)) for _ in range(rng.randint(1, 4))]
@@ -107,7 +107,7 @@ def run(ctx):
         hist["H%d" % h] = (names, sessions)
         cases.append(("H%d" % h, sc))
     # big histories: many re-records of few outputs (recompaction thresholds), and >256KiB files
-    for h in range(3 if quick else 12):
+    for h in range(8 if quick else 20):
         names = gen_names(rng, rng.randint(2, 6))
         nrec = rng.choice((101, 110, 140, 320))
         sessions = [gen_session(rng, names, nrec // 2, multi=False), gen_session(rng, names, nrec - nrec // 2, multi=False)]
@@ -119,7 +119,7 @@ def run(ctx):
         hist["R%d" % h] = (names, sessions, dead, extra)
         cases.append(("R%d" % h, sc))
     # explicit recompact + restat
-    for h in range(6 if quick else 40):
+    for h in range(16 if quick else 60):
         names = gen_names(rng, rng.randint(2, 8))
         sessions = [gen_session(rng, names, rng.randint(2, 15))]
         dead = rng.sample(names, rng.randint(0, len(names)))
@@ -176,8 +176,8 @@ def run(ctx):
                     offs.add(min(max(pos + d, 0), len(B)))
                 pos += len(ln) + 1
             offs = sorted(offs)
-            if len(offs) > (400 if quick else 3000):
-                offs = sorted(rng.sample(offs, 400 if quick else 3000))
+            if len(offs) > (800 if quick else 3000):
+                offs = sorted(rng.sample(offs, 800 if quick else 3000))
         names = hist[cid][0]
         for c in offs:
             kind = (c + int(cid[1:])) % 4
